@@ -140,7 +140,7 @@ PROPS["C20"]["rules"] = PROPS["C20"]["rules"] + [rules_bounds.rule_F2_strings]
 PROPS["C05"]["rules"] = PROPS["C05"]["rules"] + [_layouts("comp-header")]
 
 PROPS["C07"] = {
-    "rules": [_layouts("VH"), rules_limits.rule_F9b, rules_limits.rule_F9c, rules_bounds.rule_F2_strings],
+    "rules": [_layouts("VH"), (lambda ctx: rules_dd.rule_F3c(ctx, {"vdata_desc"})), rules_limits.rule_F9b, rules_limits.rule_F9c, rules_bounds.rule_F2_strings],
     "level": "other",
     "explanation": "Decides structural necessary conditions of 'a Vdata returns the records written': (F1) vpackvs writes and vunpackvs reads the Vdata header (VH) exactly as the frozen format specification says — field widths, order, loops over fields, the optional flags/attribute tail and the version/more pair re-read from len-5; (F9b/F9c) every value that ends up in a 16-bit field of that record (field count, sizes, offsets, orders, name lengths, record size) is bounded where it is computed, no narrow counter is incremented without a limit test; (F2s) every copy into the fixed-size vsname/vsclass buffers is bounded by the buffer. Not decided: VSread/VSwrite gather/scatter (cases A-E), interlace conversion and seek arithmetic — all value-level.",
     "rule_text": "instances = rows of the VH layout table (writer, readers), increments of narrow record fields, ENCODE sites of vpackvs/vpackvg and narrowing stores into their fields, copies into fixed array fields",
@@ -151,7 +151,7 @@ PROPS["C07"] = {
     "technique": "AST codec-layout extraction compared with a frozen spec + guard-dominance dataflow",
 }
 PROPS["C08"] = {
-    "rules": [_layouts("VG"), rules_limits.rule_F9b, rules_limits.rule_F9c],
+    "rules": [_layouts("VG"), (lambda ctx: rules_dd.rule_F3c(ctx, {"vgroup_desc"})), rules_limits.rule_F9b, rules_limits.rule_F9c],
     "level": "other",
     "explanation": "Decides structural necessary conditions of 'Vgroup membership, naming and hierarchy persist': (F1) vpackvg writes and vunpackvg reads the Vgroup record (VG) exactly as specified — element count, tag list, ref list, name and class with 16-bit lengths, extag/exref, optional flags and attribute list, version/more re-read from len-5; (F9b) the 16-bit element count is never incremented without a limit test; (F9c) name/class lengths and every other value encoded into 16-bit fields are bounded (Vsetname/Vsetclass guards re-verified). Not decided: equivalence with a reference graph model over edit histories, lone-object sets, ordered deletion — value-level.",
     "rule_text": "instances = rows of the VG layout table, increments of narrow record fields, ENCODE sites of vpackvg/vpackvs and narrowing stores into their fields",
